@@ -1,53 +1,45 @@
 import ZCV.Lemmas.Datatypes2Chars
 import ZCV.Spec.Datatypes2
-/-! `strip` and `int(str)`: the model functions `strip`, `pyInt` against the grammar `DTSpec.IntLit`. -/
+/-! `strip` and `int(str)`: the model functions `strip`, `stripInt`, `pyInt` against the grammar `DTSpec.IntLit`. -/
 namespace ZCV.DT
 open ZCV ZCV.DTSpec
 
-/-! ## `strip` -/
+/-! ## `strip`, for any character class `p` (`str.strip()` is `p = pySpace`; what `int()`/`float()` skip is `p = intSpace`) -/
 
-theorem dt2_dropWhile_allSpace (pre x : Str) (h : AllSpace pre) :
-    (pre ++ x).dropWhile pySpace = x.dropWhile pySpace := by
+theorem dt2_dropWhile_allP (p : Char → Bool) (pre x : Str) (h : ∀ c ∈ pre, p c = true) :
+    (pre ++ x).dropWhile p = x.dropWhile p := by
   induction pre with
   | nil => rfl
   | cons c t ih =>
-    have hc : pySpace c = true := h c (by simp)
+    have hc : p c = true := h c (by simp)
     simp only [List.cons_append, List.dropWhile_cons, hc, ↓reduceIte]
     exact ih (fun d hd => h d (List.mem_cons_of_mem _ hd))
 
-theorem dt2_dropWhile_all_nil (g : Str) (h : AllSpace g) : g.dropWhile pySpace = [] := by
-  have := dt2_dropWhile_allSpace g [] h
+theorem dt2_dropWhile_allP_nil (p : Char → Bool) (g : Str) (h : ∀ c ∈ g, p c = true) : g.dropWhile p = [] := by
+  have := dt2_dropWhile_allP p g [] h
   simpa using this
 
-theorem dt2_allSpace_reverse (g : Str) (h : AllSpace g) : AllSpace g.reverse :=
+theorem dt2_allP_reverse (p : Char → Bool) (g : Str) (h : ∀ c ∈ g, p c = true) : ∀ c ∈ g.reverse, p c = true :=
   fun c hc => h c (List.mem_reverse.mp hc)
 
-theorem dt2_lstrip_pre (pre x : Str) (h : AllSpace pre) : lstrip (pre ++ x) = lstrip x :=
-  dt2_dropWhile_allSpace pre x h
+/-- `strip` with respect to `p` -/
+def dt2StripP (p : Char → Bool) (s : Str) : Str := ((s.dropWhile p).reverse.dropWhile p).reverse
 
-theorem dt2_rstrip_post (x post : Str) (h : AllSpace post) : rstrip (x ++ post) = rstrip x := by
-  unfold rstrip
-  rw [List.reverse_append, dt2_dropWhile_allSpace _ _ (dt2_allSpace_reverse post h)]
-
-theorem dt2_lstrip_head (c : Char) (t : Str) (h : pySpace c = false) : lstrip (c :: t) = c :: t := by
-  simp [lstrip, h]
-
-theorem dt2_rstrip_last (x : Str) (l : Char) (hl : x.getLast? = some l) (h : pySpace l = false) : rstrip x = x := by
-  obtain ⟨ys, rfl⟩ := List.getLast?_eq_some_iff.mp hl
-  simp [rstrip, h]
-
-/-- what is left of `pre ++ mid ++ post` is `mid`, when `mid` neither starts nor ends with whitespace -/
-theorem dt2_strip_mid (pre mid post : Str) (hpre : AllSpace pre) (hpost : AllSpace post)
-    (hm : mid = [] ∨ ((∃ c t, mid = c :: t ∧ pySpace c = false) ∧ ∃ l, mid.getLast? = some l ∧ pySpace l = false)) :
-    strip (pre ++ mid ++ post) = mid := by
-  unfold strip
-  rw [List.append_assoc, dt2_lstrip_pre _ _ hpre]
+theorem dt2_stripP_mid (p : Char → Bool) (pre mid post : Str) (hpre : ∀ c ∈ pre, p c = true)
+    (hpost : ∀ c ∈ post, p c = true)
+    (hm : mid = [] ∨ ((∃ c t, mid = c :: t ∧ p c = false) ∧ ∃ l, mid.getLast? = some l ∧ p l = false)) :
+    dt2StripP p (pre ++ mid ++ post) = mid := by
+  unfold dt2StripP
+  rw [List.append_assoc, dt2_dropWhile_allP p _ _ hpre]
   rcases hm with rfl | ⟨⟨c, t, rfl, hc⟩, l, hl, hl2⟩
-  · rw [List.nil_append, lstrip, dt2_dropWhile_all_nil post hpost]; rfl
-  · rw [List.cons_append, dt2_lstrip_head _ _ hc, ← List.cons_append, dt2_rstrip_post _ _ hpost,
-      dt2_rstrip_last _ l hl hl2]
+  · rw [List.nil_append, dt2_dropWhile_allP_nil p post hpost]; rfl
+  · obtain ⟨ys, hys⟩ := List.getLast?_eq_some_iff.mp hl
+    rw [List.cons_append, List.dropWhile_cons, hc]
+    simp only [Bool.false_eq_true, ↓reduceIte]
+    rw [← List.cons_append, List.reverse_append, dt2_dropWhile_allP p _ _ (dt2_allP_reverse p post hpost), hys]
+    simp [hl2]
 
-theorem dt2_takeWhile_allSpace (s : Str) : AllSpace (s.takeWhile pySpace) := by
+theorem dt2_takeWhile_allP (p : Char → Bool) (s : Str) : ∀ c ∈ s.takeWhile p, p c = true := by
   induction s with
   | nil => intro c hc; simp at hc
   | cons a t ih =>
@@ -60,15 +52,75 @@ theorem dt2_takeWhile_allSpace (s : Str) : AllSpace (s.takeWhile pySpace) := by
       · exact ih c h
     · simp at hc
 
-/-- every text is whitespace, its stripped form, whitespace -/
-theorem dt2_strip_decomp (s : Str) : ∃ pre post, s = pre ++ strip s ++ post ∧ AllSpace pre ∧ AllSpace post := by
-  refine ⟨s.takeWhile pySpace, ((lstrip s).reverse.takeWhile pySpace).reverse, ?_, dt2_takeWhile_allSpace s,
-    dt2_allSpace_reverse _ (dt2_takeWhile_allSpace _)⟩
-  have h1 : s = s.takeWhile pySpace ++ lstrip s := (List.takeWhile_append_dropWhile).symm
-  have h2 : lstrip s = strip s ++ ((lstrip s).reverse.takeWhile pySpace).reverse := by
-    unfold strip rstrip
+theorem dt2_stripP_decomp (p : Char → Bool) (s : Str) :
+    ∃ pre post, s = pre ++ dt2StripP p s ++ post ∧ (∀ c ∈ pre, p c = true) ∧ (∀ c ∈ post, p c = true) := by
+  refine ⟨s.takeWhile p, ((s.dropWhile p).reverse.takeWhile p).reverse, ?_, dt2_takeWhile_allP p s,
+    dt2_allP_reverse p _ (dt2_takeWhile_allP p _)⟩
+  have h1 : s = s.takeWhile p ++ s.dropWhile p := (List.takeWhile_append_dropWhile).symm
+  have h2 : s.dropWhile p = dt2StripP p s ++ ((s.dropWhile p).reverse.takeWhile p).reverse := by
+    unfold dt2StripP
     rw [← List.reverse_append, List.takeWhile_append_dropWhile, List.reverse_reverse]
   rw [List.append_assoc, ← h2, ← h1]
+
+theorem dt2_strip_eq (s : Str) : strip s = dt2StripP pySpace s := rfl
+theorem dt2_stripInt_eq (s : Str) : stripInt s = dt2StripP intSpace s := rfl
+
+/-! ### `str.strip()` -/
+
+theorem dt2_dropWhile_allSpace (pre x : Str) (h : AllSpace pre) :
+    (pre ++ x).dropWhile pySpace = x.dropWhile pySpace := dt2_dropWhile_allP pySpace pre x h
+
+theorem dt2_dropWhile_all_nil (g : Str) (h : AllSpace g) : g.dropWhile pySpace = [] :=
+  dt2_dropWhile_allP_nil pySpace g h
+
+theorem dt2_allSpace_reverse (g : Str) (h : AllSpace g) : AllSpace g.reverse := dt2_allP_reverse pySpace g h
+
+/-- what is left of `pre ++ mid ++ post` is `mid`, when `mid` neither starts nor ends with whitespace -/
+theorem dt2_strip_mid (pre mid post : Str) (hpre : AllSpace pre) (hpost : AllSpace post)
+    (hm : mid = [] ∨ ((∃ c t, mid = c :: t ∧ pySpace c = false) ∧ ∃ l, mid.getLast? = some l ∧ pySpace l = false)) :
+    strip (pre ++ mid ++ post) = mid := dt2_stripP_mid pySpace pre mid post hpre hpost hm
+
+theorem dt2_takeWhile_allSpace (s : Str) : AllSpace (s.takeWhile pySpace) := dt2_takeWhile_allP pySpace s
+
+/-- every text is whitespace, its stripped form, whitespace -/
+theorem dt2_strip_decomp (s : Str) : ∃ pre post, s = pre ++ strip s ++ post ∧ AllSpace pre ∧ AllSpace post :=
+  dt2_stripP_decomp pySpace s
+
+/-! ### the white space `int()` / `float()` skip -/
+
+theorem dt2_intSpace_iff (c : Char) :
+    intSpace c = true ↔ pySpace c = true ∧ c.toNat ∉ Gen.intSpaceExcluded := by
+  unfold intSpace
+  rw [Bool.and_eq_true, Bool.not_eq_true', ← Bool.not_eq_true, List.contains_iff_mem]
+
+/-- what `int` skips is white space for `strip` as well -/
+theorem dt2_intSpace_space (c : Char) (h : intSpace c = true) : pySpace c = true := ((dt2_intSpace_iff c).mp h).1
+
+theorem dt2_not_space_not_intSpace (c : Char) (h : pySpace c = false) : intSpace c = false := by
+  cases hi : intSpace c with
+  | false => rfl
+  | true => rw [dt2_intSpace_space c hi] at h; cases h
+
+theorem dt2_allIntSpace_allSpace (g : Str) (h : AllIntSpace g) : AllSpace g :=
+  fun c hc => dt2_intSpace_space c (h c hc)
+
+/-- what is left of `pre ++ mid ++ post` is `mid`, when `mid` neither starts nor ends with a skipped character -/
+theorem dt2_stripInt_mid (pre mid post : Str) (hpre : AllIntSpace pre) (hpost : AllIntSpace post)
+    (hm : mid = [] ∨ ((∃ c t, mid = c :: t ∧ intSpace c = false) ∧ ∃ l, mid.getLast? = some l ∧ intSpace l = false)) :
+    stripInt (pre ++ mid ++ post) = mid := dt2_stripP_mid intSpace pre mid post hpre hpost hm
+
+/-- the same from the stronger "neither starts nor ends with `str.isspace` white space" -/
+theorem dt2_stripInt_mid' (pre mid post : Str) (hpre : AllIntSpace pre) (hpost : AllIntSpace post)
+    (hm : (∃ c t, mid = c :: t ∧ pySpace c = false) ∧ ∃ l, mid.getLast? = some l ∧ pySpace l = false) :
+    stripInt (pre ++ mid ++ post) = mid := by
+  obtain ⟨⟨c, t, h1, h2⟩, l, h3, h4⟩ := hm
+  exact dt2_stripInt_mid pre mid post hpre hpost
+    (Or.inr ⟨⟨c, t, h1, dt2_not_space_not_intSpace c h2⟩, l, h3, dt2_not_space_not_intSpace l h4⟩)
+
+/-- every text is skipped white space, what `int`/`float` parse, skipped white space -/
+theorem dt2_stripInt_decomp (s : Str) :
+    ∃ pre post, s = pre ++ stripInt s ++ post ∧ AllIntSpace pre ∧ AllIntSpace post :=
+  dt2_stripP_decomp intSpace s
 
 /-! ## digits -/
 
@@ -236,7 +288,7 @@ theorem dt2_signed_body_ends (sg body : Str) (ds : List Nat) (hs : IsSign sg) (h
 theorem dt2_pyInt_iff (s : Str) (n : Int) : pyInt s = some n ↔ IntLit s n := by
   constructor
   · intro h
-    obtain ⟨pre, post, hs, hpre, hpost⟩ := dt2_strip_decomp s
+    obtain ⟨pre, post, hs, hpre, hpost⟩ := dt2_stripInt_decomp s
     unfold pyInt at h
     split at h
     · rename_i t ht
@@ -257,13 +309,13 @@ theorem dt2_pyInt_iff (s : Str) (n : Int) : pyInt s = some n ↔ IntLit s n := b
         obtain ⟨ds, hb, rfl⟩ := (dt2_pyNat_iff t k).mp hk
         refine ⟨pre, ['+'], t, post, ds, ?_, hpre, hpost, hb, Or.inl ⟨Or.inr rfl, h.symm⟩⟩
         rw [hs, ht]; simp
-    · cases hk : pyNat (strip s) with
+    · cases hk : pyNat (stripInt s) with
       | none => rw [hk] at h; cases h
       | some k =>
         rw [hk] at h
         simp only [Option.map_some, Option.some.injEq] at h
         obtain ⟨ds, hb, rfl⟩ := (dt2_pyNat_iff _ k).mp hk
-        exact ⟨pre, [], strip s, post, ds, by rw [List.append_nil]; exact hs, hpre, hpost, hb,
+        exact ⟨pre, [], stripInt s, post, ds, by rw [List.append_nil]; exact hs, hpre, hpost, hb,
           Or.inl ⟨Or.inl rfl, h.symm⟩⟩
   · rintro ⟨pre, sg, body, post, ds, rfl, hpre, hpost, hb, hn⟩
     have hsg : IsSign sg := by
@@ -271,9 +323,9 @@ theorem dt2_pyInt_iff (s : Str) (n : Int) : pyInt s = some n ↔ IntLit s n := b
       · exact Or.inl h
       · exact Or.inr (Or.inl h)
       · exact Or.inr (Or.inr h)
-    have hstrip : strip (pre ++ sg ++ body ++ post) = sg ++ body := by
+    have hstrip : stripInt (pre ++ sg ++ body ++ post) = sg ++ body := by
       rw [List.append_assoc pre sg body]
-      exact dt2_strip_mid pre (sg ++ body) post hpre hpost (Or.inr (dt2_signed_body_ends sg body ds hsg hb))
+      exact dt2_stripInt_mid' pre (sg ++ body) post hpre hpost (dt2_signed_body_ends sg body ds hsg hb)
     have hnat : pyNat body = some (decimal ds) := (dt2_pyNat_iff body _).mpr ⟨ds, hb, rfl⟩
     unfold pyInt
     rw [hstrip]
